@@ -258,15 +258,7 @@ fn exec_op<KF: Fam, VF: Fam>(t: &mut Mm<'_, KF, VF>, req: &[&str]) -> String {
         }
         ["range", lo, hi, mode, limit] => {
             let (lo, hi) = (parse_bound(lo), parse_bound(hi));
-            let f = |b: &Bound<Vec<u8>>| -> Bound<<KF::K as Value>::SelfType<'_>> {
-                match b {
-                    Bound::Unbounded => Bound::Unbounded,
-                    Bound::Included(k) => Bound::Included(KF::key(k)),
-                    Bound::Excluded(k) => Bound::Excluded(KF::key(k)),
-                }
-            };
-            // the two bounds borrow from lo / hi which live until the end of this arm
-            let bounds = (f(&lo), f(&hi));
+            let bounds = crate::table::to_bounds::<KF>(&lo, &hi);
             match t.range::<<KF::K as Value>::SelfType<'_>>(bounds) {
                 Ok(mut it) => {
                     let limit: usize = limit.parse().unwrap();
@@ -276,10 +268,7 @@ fn exec_op<KF: Fam, VF: Fam>(t: &mut Mm<'_, KF, VF>, req: &[&str]) -> String {
                         let x = if front { it.next() } else { it.next_back() };
                         match x {
                             Some(Ok((k, vals))) => {
-                                let kb = {
-                                    let b = <KF::K as Value>::as_bytes(&k.value());
-                                    AsRef::<[u8]>::as_ref(&b).to_vec()
-                                };
+                                let kb = vbytes::<KF>(k.value());
                                 let declared = vals.len();
                                 match collect_values::<VF>(vals, "fwd", usize::MAX) {
                                     Ok(s) => {
@@ -375,10 +364,7 @@ fn run_program<KF: Fam, VF: Fam>(prog: &[String], out: &mut Out) -> bool {
                             let mut all: Vec<(Vec<u8>, Set)> = vec![];
                             for e in t.iter().unwrap() {
                                 let (k, vals) = e.unwrap();
-                                let kb = {
-                                    let b = <KF::K as Value>::as_bytes(&k.value());
-                                    AsRef::<[u8]>::as_ref(&b).to_vec()
-                                };
+                                let kb = vbytes::<KF>(k.value());
                                 let s = collect_values::<VF>(vals, "fwd", usize::MAX).unwrap();
                                 for w in s.windows(2) {
                                     if VF::K::compare(&w[0], &w[1]) != Ordering::Less {
@@ -480,8 +466,8 @@ fn gen_program<KF: Fam, VF: Fam>(rng: &mut Rng, thorough: bool) -> Vec<String> {
                 85..=94 => {
                     let b = |rng: &mut Rng| match rng.below(3) {
                         0 => "u".to_string(),
-                        1 => format!("i{}", hex(rng.pick(&keys))),
-                        _ => format!("e{}", hex(rng.pick(&keys))),
+                        1 => format!("i{}", hex(rng.pick::<Vec<u8>>(&keys))),
+                        _ => format!("e{}", hex(rng.pick::<Vec<u8>>(&keys))),
                     };
                     let (mut lo, mut hi) = (b(rng), b(rng));
                     if lo != "u" && hi != "u" {
